@@ -29,6 +29,8 @@ def main():
     # run against /repo (or another scratch tree) at the same time
     os.makedirs(BD, exist_ok=True)
     sh(["rsync", "-a", "--delete", os.path.join(VERIF, "coq") + "/", os.path.join(BD, "coq") + "/"])
+    # models extracted from an earlier scratch tree would look newer than the restored .vo files: extract again
+    sh("rm -rf %s %s/bin/*_driver" % (os.path.join(BD, "ocaml"), BD))
     env = dict(os.environ, IMB_REPO=WT, IMB_VERIF_BUILD=BD, IMB_COQ_DIR=os.path.join(BD, "coq"))
     rc = 0
     out = {}
